@@ -162,6 +162,24 @@ def end_to_end(scope, na, nb):
             cp = orig.clone()
             cp.name = nb
             add(cp)
+    elif scope == "refused-adds-under-edif":
+        # EDIF-policy netlist: before the export, adds are refused because of their *name* while the identifiers they
+        # carry are free - exactly the identifiers the writer is about to give to a sibling
+        n[".NS"] = "EDIF"
+        first = top.create_child(name=na, reference=leaf)
+        first["EDIF.identifier"] = "".join(ch if ch.isalnum() else "_" for ch in na)
+        top.create_child(name=nb, reference=leaf)
+        c0 = top.create_cable(name=na, wires=1)
+        c0["EDIF.identifier"] = "".join(ch if ch.isalnum() else "_" for ch in na)
+        top.create_cable(name=nb, wires=1)
+        base_id = "".join(ch if ch.isalnum() else "_" for ch in nb)
+        for ident in (base_id, base_id + "_sdn_1_", base_id + "_sdn_2_"):
+            for make in (lambda **kw: top.create_child(reference=leaf, **kw), lambda **kw: top.create_cable(**kw)):
+                try:
+                    make(properties={".NAME": na, "EDIF.identifier": ident})
+                    return [("setup-not-refused:" + tag, "an element named like a sibling was accepted")]
+                except ValueError:
+                    pass
     elif scope == "cell-first-library":
         # the colliding cells live in a library that is not the last one written
         prim.create_definition(name=na)
@@ -281,6 +299,8 @@ def cases(tier):
         out.append(("e2e", "instance-readded-under-edif", na, nb, "asc"))
     for na, nb in (("a-b", "a+b"), ("q[0]x", "q(0)x"), ("x.y", "X/Y")):
         out.append(("e2e", "inserted-in-front-under-edif", na, nb, "asc"))
+    for na, nb in (("x_y", "x/y"), ("a-b", "a+b"), ("k", "K-"), ("plain", "other")):
+        out.append(("e2e", "refused-adds-under-edif", na, nb, "asc"))
     for na, nb in (("Core_A", "Core_B"), ("core_a", "core_b"), ("U1", "u1x"), ("a-B", "a-C"), ("A" * 256, "b")):
         out.append(("e2e", "copy-added-after-export", na, nb, "asc"))
     # names that begin or end with a blank (an escaped Verilog identifier ends with one)
